@@ -351,7 +351,7 @@ def oracle(ctx, pairs, seed_base=0):
 def run(ctx):
     ctx.rule = ('pairs (source, target) of real mulgrid geometries from 11 families (independent random rectangular grids over overlapping '
                 'regions; coarse/fine; a grid and its column refinement, both directions; layer refinement; shifted and renamed-convention copies; '
-                'copies with random column surfaces incl. exactly on layer bottoms; identical; shipped tests/mulgrid geometries against themselves '
+                'copies with random column surfaces incl. exactly on layer bottoms; identical; shipped tests/mulgrid geometries (quick: g5, g1 once each, else g7; thorough: all seven) against themselves '
                 '(shifted) and against rectangular grids over their bounds), cycled through all 3x3 (source, target) atmosphere types, conventions 0-3 '
                 'at random, 1..6 primary variables, generators at top/bottom/interior blocks with and without tables, rename x preserve_totals; '
                 'a case is distinct by its pair of geometry recipes and non-trivial when the target has underground blocks')
@@ -376,8 +376,17 @@ def run(ctx):
     t0 = time.time()
     pairs, skipped = make_pairs(ctx, n)
     ctx.log('%d geometry pairs built in %.1fs (%d generation attempts skipped)' % (len(pairs), time.time() - t0, skipped))
+    ships = {}
+    for p in pairs:
+        for sp in (p.sspec, p.dspec):
+            f = sp['base'].get('file')
+            if f: ships[f] = ships.get(f, 0) + 1
     ctx.extra['input_distribution'] = {'pairs': len(pairs), 'generation_skipped': skipped,
-                                       'target_blocks_total': sum(p.dst.num_blocks for p in pairs)}
+                                       'target_blocks_total': sum(p.dst.num_blocks for p in pairs),
+                                       'shipped_geometry_uses': ships,
+                                       'conventions_source_target': dict(sorted(
+                                           (k, sum(1 for p in pairs if '%d->%d' % (p.src.convention, p.dst.convention) == k))
+                                           for k in set('%d->%d' % (p.src.convention, p.dst.convention) for p in pairs)))}
     nbig = [0]
     if exe:
         for lo in range(0, len(pairs), 200):
